@@ -526,6 +526,21 @@ Ltac split_nc :=
       destruct (new_cap_int s0) as [[? ?] ?]; simpl in HP
   end.
 
+Lemma LI_cres c v s : LI s -> LI (cres T c v s). Proof. unfold cres. li. Qed.
+Lemma LI_crej c v s : LI s -> LI (crej c v s). Proof. unfold crej. li. Qed.
+Hint Resolve LI_cres LI_crej : li.
+Lemma LI_async_throw b e s : LI s -> LI (async_throw T b e s). Proof. unfold async_throw. li. Qed.
+Hint Resolve LI_async_throw : li.
+Lemma LI_async_step b s : LI s -> LI (async_step T b s).
+Proof. intros H. unfold async_step. destruct (ab_rest b); [li|]. split_pr. li. Qed.
+Hint Resolve LI_async_step : li.
+Lemma LI_exec_finally sc ful arg cap s : LI s -> LI (exec_finally T sc ful arg cap s).
+Proof.
+  intros H. unfold exec_finally. cbv beta zeta.
+  destruct (s_ret sc); try solve [li]; split_pr; split_nc; li.
+Qed.
+Hint Resolve LI_exec_finally : li.
+
 Lemma LI_comb_elem k cap c s x : LI s -> LI (comb_elem T k cap c s x).
 Proof.
   intros H. unfold comb_elem.
@@ -548,6 +563,9 @@ Proof.
   - destruct (get_prom (PN p) s); auto.
     pose proof (LI_new_cap_named false s H) as N. destruct (new_cap_named false s) as [[? ?] ?]. simpl in N. li.
   - apply LI_exec_comb; auto.
+  - pose proof (LI_new_cap_named false s H) as N. destruct (new_cap_named false s) as [[? ?] ?]. simpl in N. li.
+  - destruct (get_prom (PN p) s); auto.
+    pose proof (LI_new_cap_named false s H) as N. destruct (new_cap_named false s) as [[? ?] ?]. simpl in N. li.
 Qed.
 
 Lemma LI_run_ops ops s : LI s -> LI (run_ops T ops s).
